@@ -5,6 +5,7 @@
             S <name> <stropped>          (table of Language.filter_id(name, "path"); identity elsewhere)
             T <type>
             GO
+            SN <support_namespace>       (optional: the support files' folder is computed too: SUP line, or RAISE)
             P <key>                      (optional priority list for perm mode 4, most urgent first)
    perm modes: 0 identity, 1 reverse, 2 sorted, 3 reverse sorted, 4 keys of the P list first (in P order), the rest after
                in their original order; 5 the model's sort_keys = name order of get_nested_namespaces since fix 9b93945 (used to replay the set iteration order observed on the implementation)
@@ -35,14 +36,17 @@ let order prio mode l =
   | 5 -> sort_keys l      (* the extracted order of Namespace.get_nested_namespaces (current code) *)
   | _ -> List.filter (fun k -> List.mem k l) prio @ List.filter (fun k -> not (List.mem k prio)) l
 
-let run es ext stem outdir pm cm qf table prio types =
+let run es ext stem outdir pm cm qf table prio sn types =
   let strop x = match List.assoc_opt x table with Some y -> y | None -> x in
   let perm = order prio pm and cperm = order prio cm in
   let ek = if qf then strop else same in
   (* regenerated from /repo: does Namespace.__init__ validate the stem / does build_namespace_tree have the collision check? *)
-  match build_checked pin_c11path_stem_validated pin_c11tree_stem_check strop ek es ext stem outdir perm types with
-  | None -> print_string "RAISE\nEND\n"
-  | Some (s, root) ->
+  (* support files (only when an SN line was given): None = Language.support_namespace raises *)
+  let sup = match sn with None -> Some [] | Some x -> support_targets pin_c11support_ns_validated outdir x [parse_str "102"] in
+  match sup, build_checked pin_c11path_stem_validated pin_c11tree_stem_check strop ek es ext stem outdir perm types with
+  | None, _ | _, None -> print_string "RAISE\nEND\n"
+  | Some sl, Some (s, root) ->
+  List.iter (fun p -> Printf.printf "SUP %s\n" (show_key p)) sl;
   print_string ("ROOT " ^ show_key root ^ "\n");
   print_string ("FOLD " ^ (if ns_fold strop types then "1" else "0") ^ "\n");
   List.iter (fun (k, n) ->
@@ -69,21 +73,22 @@ let run es ext stem outdir pm cm qf table prio types =
   print_string "END\n"
 
 let () =
-  let cfg = ref None and table = ref [] and types = ref [] and prio = ref [] in
+  let cfg = ref None and table = ref [] and types = ref [] and prio = ref [] and sn = ref None in
   try
     while true do
       let line = String.trim (input_line stdin) in
       match String.split_on_char ' ' line with
       | ["CASE"; es; ext; stem; outdir; pm; cm; qf] ->
         cfg := Some (es = "1", parse_str ext, parse_str stem, parse_key outdir, int_of_string pm, int_of_string cm, qf = "1");
-        table := []; types := []; prio := []
+        table := []; types := []; prio := []; sn := None
       | ["S"; a; b] -> table := (parse_str a, parse_str b) :: !table
       | ["T"; t] -> types := parse_ty t :: !types
       | ["P"; k] -> prio := parse_key k :: !prio
+      | ["SN"; x] -> sn := Some (parse_str x)
       | ["GO"] ->
         (match !cfg with
          | Some (es, ext, stem, outdir, pm, cm, qf) ->
-           (try run es ext stem outdir pm cm qf !table (List.rev !prio) (List.rev !types)
+           (try run es ext stem outdir pm cm qf !table (List.rev !prio) !sn (List.rev !types)
             with e -> print_string ("ERR " ^ Printexc.to_string e ^ "\nEND\n"))
          | None -> print_string "ERR no case\nEND\n")
       | [""] -> ()
